@@ -377,6 +377,94 @@ def act_family(world: World, res: Result, tier: str):
     res.add(ob)
 
 
+def hex_family(world: World, res: Result, tier: str):
+    """Program::from_hex on an arbitrary (valid UTF-8) string: everything it does BEFORE handing bytes to the CBOR / flat layers -
+    with hex::decode and from_cbor replaced by havoc stubs (any Ok / Err) - must not panic (slicing at a non-boundary, unwrap, ...)"""
+    import itertools
+    from mirsym.summaries import ByteSeq, fresh_obj
+    from props.c04 import utf8_fixed
+    name = "hex/from_hex"
+    ob = Obligation(name, "discharged", "")
+    ex = world.executor(timeout_ms=20000, max_paths=400, max_steps=20000)
+
+    def stub_hex_decode(ex_, st, c, args, dty):
+        b = z3.Const(fresh("hexbytes"), ByteSeq)
+        return [(None, Adt("Result", "Ok", (VecV(Bytes(b)),))), (None, Adt("Result", "Err", (fresh_obj("hexerr", "FromHexError"),)))]
+
+    def stub_from_cbor(ex_, st, c, args, dty):
+        return [(None, Adt("Result", "Ok", (fresh_obj("program", "Program"),))), (None, Adt("Result", "Err", (fresh_obj("deerr", "Error"),)))]
+    ex.stubs.update({"hex::decode": stub_hex_decode, "Program::<T>::from_cbor": stub_from_cbor, "Program::from_cbor": stub_from_cbor,
+                     "Program::<'b, T>::from_cbor": stub_from_cbor, "ast::Program::<T>::from_cbor": stub_from_cbor,
+                     "<FromHexError as ToString>::to_string": lambda ex_, st, c, args, dty: fresh_obj("msg", "String")})
+    try:
+        fn = world.fn("Program<T>", "from_hex")
+    except Unsupported as e:
+        ob.status, ob.detail = "undecided", str(e)
+        res.add(ob)
+        return
+    n = 0
+    shapes = [ws for k in range(0, 4) for ws in itertools.product((1, 2, 3), repeat=k)]
+    for ws in shapes:
+        st = ex.new_state()
+        cps, parts = [], []
+        for k, w_ in enumerate(ws):
+            cp = z3.Int(f"hc{k}")
+            cs, enc = utf8_fixed(cp, w_)
+            st.pc += cs
+            cps.append(cp)
+            parts.append(enc)
+        sx = z3.Concat(*parts) if len(parts) > 1 else (parts[0] if parts else z3.Empty(ByteSeq))
+        # an unconstrained ASCII tail so that the length is not fixed
+        tail = z3.Const("hextail", ByteSeq)
+        st.pc.append(z3.Length(tail) <= 4)
+        for i in range(4):
+            st.pc.append(z3.Implies(z3.Length(tail) > i, z3.ULT(tail[i], 0x80)))
+        full = z3.Concat(sx, tail) if ws else tail
+        try:
+            sref = ex.alloc(st, Str(full))
+            outs = ex.run(fn, [sref, ex.alloc(st, VecV(Bytes(z3.Empty(ByteSeq)))), ex.alloc(st, VecV(Bytes(z3.Empty(ByteSeq))))], st, generics={"T": "DeBruijn"})
+        except Unsupported as e:
+            ob.status, ob.detail = "undecided", f"{e} (char widths {ws})"
+            break
+        for o in outs:
+            n += 1
+            if o.kind == "undecided":
+                ob.status, ob.detail = "undecided", f"{o.msg} (char widths {ws})"
+            elif o.kind == "panic":
+                m = ex.model(o.pc)
+                text = None
+                if m is not None:
+                    from mirsym.summaries import _concrete_bytes
+                    try:
+                        text = _concrete_bytes(m.eval(full, True)).decode("utf-8")
+                    except Exception:
+                        text = None
+                vb = Obligation(name + "/panic", "violated", f"Program::from_hex panics on the string {text!r}: {o.msg}")
+                vb.model = {"hex_string": text}
+                vb.finding_key = "hex/from_hex: panic before decoding"
+                if not any(x.finding_key == vb.finding_key for x in res.obligations):
+                    res.add(vb)
+        if ob.status != "discharged":
+            break
+    if ob.status == "discharged":
+        ob.detail = f"{len(shapes)} leading character-width shapes (1-3 byte characters) + ASCII tail, {n} paths: no panic before the CBOR layer"
+        ob.witness = n > 0
+    ob.queries, ob.solver_s = ex.queries, round(ex.solver_s, 3)
+    res.functions.update(ex.encoded)
+    res.add(ob)
+
+
+def replay_hex(ob):
+    from vlib import driver as D
+    m = ob.model or {}
+    if not m.get("hex_string") and m.get("hex_string") != "":
+        return None, "model string not concrete"
+    r = D.get("drv-uplc").call("from_hex", hex=m["hex_string"], binder="debruijn")
+    if "panic" in r:
+        return True, f"Program::from_hex panics on {m['hex_string']!r}: {str(r['panic'])[:160]}"
+    return False, f"Program::from_hex answers {str(r)[:120]}"
+
+
 def replay_act(ob):
     from vlib import driver as D
     m = ob.model or {}
@@ -401,12 +489,12 @@ def run(tier: str, seed: int, only=None) -> Result:
     res.extra["trusted_base"] = ["rustc nightly MIR dump (uplc, pallas-codec)", "mirsym/exec.py", "mirsym/summaries.py", "z3 5.1"]
     kf = KnownFindings()
     world = World(("uplc",), deps=("pallas-codec",))
-    for fam, f in (("prim", prim_family), ("dec", dec_family), ("act", act_family)):
+    for fam, f in (("prim", prim_family), ("dec", dec_family), ("act", act_family), ("hex", hex_family)):
         if only and only not in fam:
             continue
         t = time.time()
         f(world, res, tier)
         log(f"[C20] {fam}: {time.time() - t:.1f}s")
     from props import common_post
-    common_post.postprocess(res, kf, replay_fn=lambda ob: replay_act(ob) if ob.name.startswith("act/") else (None, "not replayable through a public entry point; model re-evaluated in the encoder only (pallas-codec findings were replayed by hand through from_flat, see known_findings.json)"))
+    common_post.postprocess(res, kf, replay_fn=lambda ob: replay_act(ob) if ob.name.startswith("act/") else replay_hex(ob) if ob.name.startswith("hex/") else (None, "not replayable through a public entry point; model re-evaluated in the encoder only (pallas-codec findings were replayed by hand through from_flat, see known_findings.json)"))
     return res
